@@ -131,6 +131,11 @@ pub fn gen_config(prop: &str, tier: Tier, rng: &mut Rng) -> Config {
             // the ledger also holds across worker faults (a restarted worker must be stopped and
             // must release what is queued at it like any other)
             c.kills = rng.chance(1, 4);
+            // ... and across service back-pressure and service restarts (a connection taken off
+            // the queue must reach a service even if that service is not ready at that moment)
+            if rng.chance(1, 4) {
+                c.scripts = true;
+            }
         }
         "C02" | "C03" => {
             c.limit = rng.range(1, 4) as usize;
@@ -145,7 +150,9 @@ pub fn gen_config(prop: &str, tier: Tier, rng: &mut Rng) -> Config {
             // the accounting either
             if rng.chance(1, 4) {
                 c.scripts = true;
-                c.script_errors = false;
+                // a failed readiness check restarts the service, not the worker: the limit and
+                // the wake-up rule are indifferent to it
+                c.script_errors = rng.chance(1, 2);
             }
             // C03 also speaks about the workers that are left after a fault (C02 stops judging then)
             if prop == "C03" {
@@ -200,6 +207,8 @@ pub fn gen_config(prop: &str, tier: Tier, rng: &mut Rng) -> Config {
         }
         "C08" => {
             c.kills = true;
+            // a replacement may arrive while the accept loop is paused
+            c.pause = rng.chance(1, 4);
             c.race_q = *rng.pick(&[0, 0, 1, 2]);
             c.max_conns = rng.range(4, 14) as usize;
         }
@@ -763,7 +772,7 @@ pub async fn drain_and_final(sim: &mut Sim) {
     }
     match prop.as_str() {
         "C06" => return final_c06(sim).await,
-        "C07" => {
+        _ if sh.cfg.scripts => {
             // every script becomes ready again (with a wake, as a legal service would)
             let n = sh.instances.borrow().len();
             for i in 0..n {
@@ -1189,7 +1198,7 @@ pub fn required_probes(prop: &str, tier: Tier) -> Vec<&'static str> {
         "C02" => vec!["probe.worker_at_limit", "probe.race_window_progress"],
         "C03" => vec!["probe.quiescent_with_backlog", "probe.quiescence_judged"],
         "C01" => vec!["probe.queued_conn_released_on_shutdown", "probe.race_window_progress"],
-        "C04" => vec!["probe.rr_window_checked", "probe.rr_window_from_quiescence", "probe.bitset_runs"],
+        "C04" => vec!["probe.rr_window_checked", "probe.rr_window_from_quiescence", "probe.bitset_runs", "probe.rr_cursor_checked"],
         "C05" => vec!["probe.backoff_armed", "probe.per_connection_error_handled", "probe.commands_acknowledged", "cmd.pause", "cmd.resume"],
         "C06" => vec!["probe.stop_completed", "probe.graceful_stop_with_connections", "probe.forced_stop_with_connections", "probe.forced_stop_judged", "probe.second_stop", "probe.stop_future_dropped", "probe.stop_after_server_end", "probe.stop_window_progress"],
         "C07" => vec!["probe.call_after_ready_round", "probe.service_restarted", "probe.queue_order_checked"],
